@@ -123,4 +123,34 @@ pub fn run(s: &mut Session, ctx: &Ctx) {
             }
         }
     }
+    // ---- alpha is interpolated linearly by mixing (all six spaces; also the same RGB with two alphas,
+    // where nothing but alpha can move) ----
+    for i in 0..(n / 10) {
+        let a = gen::color8(&mut rng);
+        let q = a.to_rgba();
+        let (a1, a2) = (alpha_gen(&mut rng), alpha_gen(&mut rng));
+        let x = Color::from_rgba(q.r, q.g, q.b, a1);
+        let y = if i % 3 == 0 {
+            Color::from_rgba(q.r, q.g, q.b, a2)
+        } else {
+            let p = gen::color8(&mut rng).to_rgba();
+            Color::from_rgba(p.r, p.g, p.b, a2)
+        };
+        let fr = match i % 5 {
+            0 => 0.5,
+            1 => 0.0,
+            2 => 1.0,
+            _ => rng.unit(),
+        };
+        let sp = ops::MIX_SPACES[i % 6];
+        s.count_case("", true);
+        match ops::guard(|| ops::mix_impl(sp, &x, &y, fr)) {
+            None => s.fail("no-panic", &format!("Color::mix::<{}>", sp), format!("{} {} f={:?}", show_color(&x), show_color(&y), fr), "panic".into()),
+            Some(m) => {
+                let want = a1 + fr * (a2 - a1);
+                let got = m.to_rgba().alpha;
+                s.check((got - want).abs() <= 1e-12, "mix-alpha-linear", &format!("Color::mix::<{}>", sp), || format!("mix {} {} {} f={:?}", sp, show_color(&x), show_color(&y), fr), || format!("alpha {:?}, expected {:?}", got, want));
+            }
+        }
+    }
 }
